@@ -153,9 +153,24 @@ def run(ctx):
                                  h, b, "failing-check-did-not-force-execution", target=l)
             # failing pre-check forces execution (when the target is reached: all its dependencies' subtrees executed fine is
             # not observable here, so only targets without dependencies are judged)
+            def made_by_another_selected_target(l, c):
+                # the file a check looks at is a declared output of ANOTHER target of this build (e.g. of a former dependency whose edge an
+                # edit removed): that target may restore or write it before or after this target's check runs — the two are unordered —
+                # so the state "before the build" does not tell what the check saw
+                f = c.get("flag")
+                if not f:
+                    return False
+                for m in sel:
+                    if m == l:
+                        continue
+                    for op in H.all_outs(ws["targets"][m]):
+                        q = H.out_path(ws["targets"][m], op)
+                        if f == q or f.startswith(q.rstrip("/") + "/"):
+                            return True
+                return False
             for l in sel:
                 t = ws["targets"][l]
-                if t.get("checks") and not H.rdeps(ws, l) and any(not H.check_holds(c, o["pre"]) for c in t["checks"]):
+                if t.get("checks") and not H.rdeps(ws, l) and any(not H.check_holds(c, o["pre"]) and not made_by_another_selected_target(l, c) for c in t["checks"]):
                     cnt["failing_prechecks"] += 1
                     if l not in ex:
                         fail("an output check failed before the build but the target was not executed", h, b,
